@@ -47,6 +47,18 @@ UNITS = {
         ],
         "contracts": ["contracts/range.vc"],
     },
+    "response_gen": {
+        "preludes": ["shims/core.rs", "shims/bytes.rs"],
+        "specs": ["contracts/spec/http.rs"],
+        "sources": [
+            SYMBOL_SRC,
+            ("src/header/mod.rs", ["struct:Header", "consts:Header"]),
+            ("src/range/mod.rs", ["struct:Range", "struct:ContentRange", "consts:Range"]),
+            ("src/request/mod.rs", ["struct:Request", "struct:Method", "const:METHOD"]),
+            ("src/response/mod.rs", ["struct:Response", "fn:Response::generate_body", "fn:Response::generate_response"]),
+        ],
+        "contracts": ["contracts/response.vc"],
+    },
 }
 for k, v in UNITS.items():
     v["name"] = k
@@ -56,6 +68,7 @@ PROPS = {
         "units": ["range_parse"],
         "level": "proof",
         "falsifier": "range",
+        "known_cases": ["end<len"],   # falsifier cases that are the known findings F2 (known_findings.txt)
         "samples": [
             "Range::parse_range_in_content_range / postcondition / res.is_ok() ==> range_ok(filelength, range_str@, res.unwrap())",
             "Range::parse_content_range / postcondition / forall j: part_ok(filepath, filelength, range_specs(raw)[j], res[j])",
